@@ -26,11 +26,11 @@ type Checkpoint struct {
 }
 
 type AttData struct {
-	Nil        bool
-	Dom        []byte
-	Slot, Idx  uint64
-	BBR        []byte
-	Src, Tgt   *Checkpoint
+	Nil       bool
+	Dom       []byte
+	Slot, Idx uint64
+	BBR       []byte
+	Src, Tgt  *Checkpoint
 }
 
 type PropData struct {
